@@ -48,7 +48,7 @@ class SocWorld(World):
     )
 
     def runs(self, prop, tier):
-        return {"quick": 160, "thorough": 6000}[tier]
+        return {"quick": 320, "thorough": 6000}[tier]
 
     # ------------------------------------------------------------------------------------------
     @staticmethod
